@@ -305,8 +305,12 @@ func (s *FastModularNetworkSolver) forwardStep(maxAllowedSignalDelta float64) (i
 }
 
 func (s *FastModularNetworkSolver) Flush() (bool, error) {
-	for i := s.biasNeuronCount; i < s.totalNeuronCount; i++ {
-		s.neuronSignals[i] = 0.0
+	for i := 0; i < s.totalNeuronCount; i++ {
+		if i >= s.biasNeuronCount {
+			// keep the BIAS signals
+			s.neuronSignals[i] = 0.0
+		}
+		// the processing cells of ALL neurons (a module can write and read the cell of a bias neuron)
 		s.neuronSignalsBeingProcessed[i] = 0.0
 	}
 	return true, nil
